@@ -239,6 +239,15 @@ def control_in_operand(n, operand=False) -> bool:
         return n[2] is not None and control_in_operand(n[2], operand)
     if t == "nonce":
         return control_in_operand(n[4], operand)
+    if t == "multi":
+        # MultiValue: the arguments are operands, the statement using the outputs is in the position of the whole node
+        return any(control_in_operand(a, True) for a in n[2]) or control_in_operand(n[4], operand)
+    if t == "maybe":
+        # MaybeValue: arguments are operands; the reducer over (value, hasValue) is in the position of the whole node
+        return any(control_in_operand(x, True) for x in n[2]) or control_in_operand(n[5], operand)
+    if t == "itxn":
+        # inner transaction fields: every field value is an operand of its itxn_field
+        return any(control_in_operand(e, True) for fields in n[1] for _f, e in fields)
     return False
 
 
